@@ -126,18 +126,58 @@ func deepCopy(v reflect.Value) reflect.Value {
 func (h *H) mutateDoc(d []byte) []byte {
 	s := string(d)
 	switch h.Intn(12) {
-	case 0: // change the case of a key
-		if i := strings.Index(s, `":`); i > 0 {
-			j := strings.LastIndex(s[:i], `"`)
-			if j >= 0 {
-				k := s[j+1 : i]
-				if h.Bool() {
-					k = strings.ToUpper(k)
-				} else {
-					k = strings.ToLower(k)
+	case 0: // edit a key: the ways an object key can (or must not) match a field name
+		// pick one of the keys of the document (not always the first)
+		var keys [][2]int
+		for i := 0; i+1 < len(s); i++ {
+			if s[i] == '"' && s[i+1] == ':' {
+				if j := strings.LastIndex(s[:i], `"`); j >= 0 && !strings.ContainsAny(s[j+1:i], `\`) {
+					keys = append(keys, [2]int{j + 1, i})
 				}
-				s = s[:j+1] + k + s[i:]
 			}
+		}
+		if len(keys) > 0 {
+			kr := keys[h.Intn(len(keys))]
+			j, i := kr[0], kr[1]
+			k := s[j:i]
+			switch h.Intn(12) {
+			case 0:
+				k = strings.ToUpper(k)
+			case 1:
+				k = strings.ToLower(k)
+			case 2: // trailing NUL bytes (16-byte zero-padded key sets), escaped
+				k += strings.Repeat(`\u0000`, 1+h.Intn(3))
+			case 3: // the same key written with an escape for its first character
+				if len(k) > 0 && k[0] < 0x80 {
+					k = fmt.Sprintf(`\u%04x`, k[0]) + k[1:]
+				}
+			case 4: // a proper prefix / an extension of the key
+				if len(k) > 1 && h.Bool() {
+					k = k[:len(k)-1]
+				} else {
+					k += h.Pick([]string{"x", " ", "0", "_"})
+				}
+			case 5: // Unicode characters that case-fold into ASCII letters (U+017F, U+212A)
+				k = strings.NewReplacer("s", "\u017f", "S", "\u017f", "k", "\u212a", "K", "\u212a").Replace(k)
+			case 6: // leading / inner space
+				k = " " + k
+			case 7: // pad beyond 16 bytes, then the key again
+				k = k + strings.Repeat("a", 16)
+			case 8: // mixed case, one letter
+				if len(k) > 0 {
+					p := h.Intn(len(k))
+					k = k[:p] + strings.ToUpper(k[p:p+1]) + k[p+1:]
+				}
+			case 9: // raw NUL / control byte inside the key (invalid JSON)
+				k += "\x00"
+			case 10: // empty key
+				k = ""
+			default: // swap two characters
+				if len(k) > 1 {
+					k = k[1:2] + k[0:1] + k[2:]
+				}
+			}
+			s = s[:j] + k + s[i:]
 		}
 	case 1: // replace some scalar by another JSON value
 		repl := h.Pick([]string{"null", "true", "12", "-1", "1.5", `"x"`, `"12"`, "{}", "[]", `[1,"a"]`, `{"X":1}`, "1e2", "300", "-129", "65536", "4294967296", "1e400", `"tv:z"`})
